@@ -179,7 +179,10 @@ theorem quotedLoop_succ (fuel c : Nat) (v acc : Bytes) : quotedLoop (fuel + 1) (
           | 0x5C :: 0x75 :: v'' =>
             (match Json.hex4 v'' with
              | none => none
-             | some (r2, v3) => contQ fuel v3 (acc ++ encodeRune (Json.utf16Decode r r2)))
+             | some (r2, v3) =>
+               -- FX28: not a (high, low) pair: rejected
+               if Json.utf16Decode r r2 = 0xFFFD then none
+               else contQ fuel v3 (acc ++ encodeRune (Json.utf16Decode r r2)))
           | _ => none
         else contQ fuel v' (acc ++ encodeRune r)
     else none) := by
@@ -241,9 +244,11 @@ theorem quotedLoop_valid : ∀ (fuel : Nat) (post acc out : Bytes), validUTF8 ac
                             split at h
                             · cases h
                             · next r2 v3 hh2 =>
-                              exact contQ_valid fuel v3 _ out
-                                (C11S.validUTF8_append ha (C11S.validUTF8_encodeRune_any _))
-                                (hex4_rest_valid hh2 hv') h
+                              split at h
+                              · cases h
+                              · exact contQ_valid fuel v3 _ out
+                                  (C11S.validUTF8_append ha (C11S.validUTF8_encodeRune_any _))
+                                  (hex4_rest_valid hh2 hv') h
                           · cases h
                         · exact contQ_valid fuel v' _ out
                             (C11S.validUTF8_append ha (C11S.validUTF8_encodeRune_any _)) hv' h
